@@ -7,8 +7,10 @@ for d in sorted(glob.glob(os.path.join(V, "seeded", "*"))):
     m = json.load(open(os.path.join(d, "meta.json")))
     def esc(x):
         return str(x).replace("|", "\\|").replace("\n", " ")
-    rows.append(f"| {m['seed']} | {m['property']} | {esc(m['needs_to_manifest'])} | {esc('; '.join(m.get('caught_by', [])))} | {esc(m.get('history', ''))} |")
-table = "| seed | given property | needs, to manifest | reported by (property: obligation) | history |\n|---|---|---|---|---|\n" + "\n".join(rows)
+    rep = m.get("reported_by")
+    rep_txt = ("**none**" if rep == [] else ", ".join(rep)) if rep is not None else "?"
+    rows.append(f"| {m['seed']} | {m['property']} | {esc(m['needs_to_manifest'])} | {rep_txt} | {esc('; '.join(m.get('caught_by', [])))} {esc(m.get('history', ''))} |")
+table = "| seed | given property | needs, to manifest | checks that report it (sweep) | which obligation / history |\n|---|---|---|---|---|\n" + "\n".join(rows)
 p = os.path.join(V, "DESIGN.md")
 s = open(p).read()
 b, e = "<!-- SEED-TABLE-BEGIN -->", "<!-- SEED-TABLE-END -->"
